@@ -106,6 +106,10 @@ func runC08(r *vf.Run) {
 			} else {
 				e = gen.Expr(rng, A, A.ColNames(), rng.Intn(4), 3)
 				gb = gen.GroupBy(rng, A, rng.Intn(5), 5000)
+				// the same list is executed on B, whose equally named columns have other cardinalities
+				for len(gb) > 0 && gbWork(B, gb) > 60000 {
+					gb = gb[:len(gb)-1]
+				}
 			}
 			e = e.Clone() // no shared nodes: the in-place edits below must hit exactly one place in both trees
 			// the Query value under test, with spare capacity in the group-by slice
@@ -131,7 +135,7 @@ func runC08(r *vf.Run) {
 				if s > 0 && qi%3 == 1 && rng.Intn(2) == 0 {
 					// the caller edits its Query value in place between two executions (e.g. loops over values with one
 					// query object): the next execution must answer the query as it is NOW
-					what := editInPlace(rng, e, q, A)
+					what := editInPlace(rng, e, q, A, B)
 					gb = append([]string{}, q.GroupBy...)
 					snapE = oracle.FromUpdog(q.Expr)
 					snapGB = append([]string{}, q.GroupBy...)
@@ -211,15 +215,20 @@ func runC08(r *vf.Run) {
 // editInPlace applies one random edit to the library query IN PLACE and the same edit to the reference tree (both
 // have the same shape by construction): another value or column in a leaf, an operand appended to / replaced in /
 // removed from an AND/OR, the operand of a NOT replaced, a group-by column replaced or appended.
-func editInPlace(rng *rand.Rand, e *oracle.Expr, q *updog.Query, ds *gen.Dataset) string {
+func editInPlace(rng *rand.Rand, e *oracle.Expr, q *updog.Query, ds *gen.Dataset, other ...*gen.Dataset) string {
+	var other0 *gen.Dataset
+	if len(other) > 0 {
+		other0 = other[0]
+	}
 	cols := ds.ColNames()
 	if len(q.GroupBy) > 0 && rng.Intn(4) == 0 {
 		c := cols[rng.Intn(len(cols))]
-		if rng.Intn(2) == 0 {
+		if rng.Intn(2) == 0 && (len(q.GroupBy) == 1 || len(ds.Vals[c]) < 50) && (other0 == nil || len(other0.Vals[c]) < 50) {
+			// (a wide column in the middle of a longer list would make the library's refinement work explode)
 			q.GroupBy[rng.Intn(len(q.GroupBy))] = c
 			return "group-by column replaced"
 		}
-		if len(q.GroupBy) < 4 && len(ds.Vals[c]) < 50 {
+		if len(q.GroupBy) < 4 && len(ds.Vals[c]) < 50 && (other0 == nil || len(other0.Vals[c]) < 50) {
 			q.GroupBy = append(q.GroupBy, c)
 			return "group-by column appended"
 		}
@@ -307,4 +316,28 @@ func deepCopyResult(r *updog.Result) *updog.Result {
 		}
 	}
 	return c
+}
+
+// gbWork estimates the library's refinement work for a group-by list on a dataset (0 if a column is unknown there).
+func gbWork(ds *gen.Dataset, gb []string) int {
+	groups, work := 1, 0
+	rows := len(ds.Rows)
+	if rows < 1 {
+		rows = 1
+	}
+	for _, c := range gb {
+		if !ds.Cols[c] {
+			return 0
+		}
+		k := len(ds.Vals[c])
+		if k < 1 {
+			k = 1
+		}
+		work += groups * k
+		groups *= k
+		if groups > rows {
+			groups = rows
+		}
+	}
+	return work
 }
